@@ -206,7 +206,7 @@ def _r3(model, res, c, g):
                           'production "%s" must yield the slot shape %s whatever the argument values are; on some trace it gives %s '
                           '(the structure depends on an argument value, or a slot is lost/duplicated)'
                           % (p, want_n, '; '.join(H.describe(bad)[:2])), case=repr(p), func=p.funcname)
-    res.floor('separator alternatives interpreted', n, 18)
+    res.soft_floor('separator alternatives interpreted', n, 18)
 
 
 class SliceSym(Const):
@@ -314,7 +314,7 @@ def _r5_r6(model, res, c, g):
     opq = {}
     for mm in model.modules.values():
         if 'to_number' in mm.functions:
-            opq[(mm.name, 'to_number')] = lambda interp, args, kwargs: Atom('to_number', args, 'float')
+            opq[(mm.name, mm.functions.key_of('to_number'))] = lambda interp, args, kwargs: Atom('to_number', args, 'float')
     num_prods = [p for p in g.productions if p.syms and all(s in ('NUMBER', 'DECIMAL', 'CARET', 'PERCENT') for s in p.syms)]
     res.floor('number-literal productions', len(num_prods), 5)
     LEX = {'DECIMAL': '.', 'CARET': '^', 'PERCENT': '%'}
